@@ -1247,10 +1247,26 @@ func lemmaSliceConcat(seq Sequence, c int) Sequence {
 // sequence.go: Search (C18).  occursAt(s, sep, i): sep occurs in s at offset i.
 //@ spec macro occursAt(s []byte, sep []byte, i int) bool = 0 <= i && i + len(sep) <= len(s) && (forall j in 0..len(sep): s[i+j] == sep[j])
 
+// The suffix array is external: New(data) indexes data, Lookup(s, -1) returns exactly the offsets
+// at which s occurs in the indexed data, each once, in no particular order.
+//@ spec func indexedData(x *suffixarray.Index) []byte uninterpreted
+//@ external func suffixarray.New(data []byte) (x *suffixarray.Index)
+//@   ensures !isnil(x) && sameslice(indexedData(x), data)
+//@   assigns nothing
+//@ external func (x *suffixarray.Index) Lookup(s []byte, n int) (result []int)
+//@   requires !isnil(x) && n < 0 && len(s) >= 1
+//@   ghost K(i int) int
+//@   ensures fresh(result)
+//@   ensures sound: forall k in 0..len(result): occursAt(indexedData(x), s, result[k])
+//@   ensures complete: forall i: occursAt(indexedData(x), s, i) ==> 0 <= K(i) && K(i) < len(result) && result[K(i)] == i
+//@   ensures distinct: forall a in 0..len(result): forall b in a+1..len(result): result[a] != result[b]
+//@   assigns nothing
+
 //@ func bytesIndexAll(s, sep []byte) (idx []int)
-//@   trusted suffixarray.New(s).Lookup(sep, -1) is assumed to return exactly the offsets at which sep occurs in s, each once, in no particular order
+//@   prop C18
 //@   requires len(sep) >= 1
 //@   ghost K(i int) int
+//@   ghost_final K(i) := Lookup_K(i)
 //@   ensures fresh(idx)
 //@   ensures sound: forall k in 0..len(idx): occursAt(s, sep, idx[k])
 //@   ensures complete: forall i: occursAt(s, sep, i) ==> 0 <= K(i) && K(i) < len(idx) && idx[K(i)] == i
